@@ -107,6 +107,8 @@ def make_case(seed, facts, index=0):
         base["io_faults_more"] = more
     if mode == "crash_history" and rng.random() < 0.3:
         base["crash_at2"] = rng.randint(1, 90)
+    if (base["swarm"].get("n_rows") or 0) >= 60 and rng.random() < 0.5:
+        base["host"]["LOG_LEVEL"] = "DEBUG"  # size-dependent behaviour of the verbose paths (dumps, spill files) needs both a large input and the switch
     # a share of the runs is also observed at the system-call level (strace), independently of the audit hook
     base["strace"] = rng.random() < STRACE_SHARE
     return base
